@@ -52,6 +52,10 @@ class _Expr(ast.NodeTransformer):
         if isinstance(node.func, ast.Name) and node.func.id == 'getattr' and len(node.args) == 2 and not node.keywords \
                 and isinstance(node.args[1], ast.Constant) and isinstance(node.args[1].value, str) and node.args[1].value.isidentifier():
             return ast.copy_location(ast.Attribute(value=node.args[0], attr=node.args[1].value, ctx=ast.Load()), node)
+        # C23: len('literal') -> its length
+        if isinstance(node.func, ast.Name) and node.func.id == 'len' and len(node.args) == 1 and not node.keywords \
+                and isinstance(node.args[0], ast.Constant) and isinstance(node.args[0].value, (str, bytes)):
+            return ast.copy_location(ast.Constant(value=len(node.args[0].value)), node)
         # C22: islice(x, a, b) over an attribute / name -> x[a:b] (what a loop over it sees)
         fn = node.func
         if ((isinstance(fn, ast.Name) and fn.id == 'islice') or (isinstance(fn, ast.Attribute) and fn.attr == 'islice'
